@@ -72,13 +72,14 @@ type row struct {
 	UTF8OK bool   `json:"utf8_ok,omitempty"`
 	Tree   tree   `json:"tree,omitempty"`
 	// log / uniq
-	Rs     []resDesc `json:"rs,omitempty"`
-	Stop   int       `json:"stop,omitempty"`
-	Ticks  bool      `json:"ticks,omitempty"`
-	Writes []string  `json:"writes,omitempty"`
-	Drop   bool      `json:"drop,omitempty"`
-	Outs   []int     `json:"outs,omitempty"`
-	Nontrivial bool  `json:"nontrivial"`
+	Rs         []resDesc `json:"rs,omitempty"`
+	Stop       int       `json:"stop,omitempty"`
+	Ticks      bool      `json:"ticks,omitempty"`
+	Writes     []string  `json:"writes,omitempty"`
+	Drop       bool      `json:"drop,omitempty"`
+	Outs       []int     `json:"outs,omitempty"`
+	Nontrivial bool      `json:"nontrivial"`
+	ReplayGen  string    `json:"replay_gen,omitempty"`
 }
 
 func hx(b []byte) string { return hex.EncodeToString(b) }
@@ -1354,6 +1355,23 @@ func liveCase(r *hlib.SplitMix64, gen string) row {
 		x := &arp.ScanResult{IP: ips[r.Intn(pool)], MAC: fmt.Sprintf("02:00:00:00:%02x:%02x", r.Intn(256), r.Intn(256)), Vendor: []string{"", "Apple, Inc.", "A&B <C>"}[r.Intn(3)]}
 		gs = append(gs, genRes{real: x, desc: resDesc{0, []val{sval(x.IP), sval(x.MAC), sval(x.Vendor)}}})
 	}
+	return liveRun(gs, gen, "arp-live-json", r.Intn(3), n > pool)
+}
+
+// hostsCase: an explicit list of addresses (a minimised failing history), each seen in the given order,
+// through the same logger.
+func hostsCase(list string, gen string) row {
+	var gs []genRes
+	for i, ip := range strings.Split(list, ",") {
+		x := &arp.ScanResult{IP: ip, MAC: fmt.Sprintf("02:00:00:00:00:%02x", i%256), Vendor: ""}
+		gs = append(gs, genRes{real: x, desc: resDesc{0, []val{sval(x.IP), sval(x.MAC), sval(x.Vendor)}}})
+	}
+	return liveRun(gs, gen, "minimal-history", 0, true)
+}
+
+// liveRun feeds gs to the logger `sx arp --json --live` builds and records standard output.
+func liveRun(gs []genRes, gen, class string, capIn int, nontrivial bool) row {
+	n := len(gs)
 	pr, pw, err := os.Pipe()
 	if err != nil {
 		panic(err)
@@ -1370,10 +1388,10 @@ func liveCase(r *hlib.SplitMix64, gen string) row {
 	go func() { io.Copy(&got, pr); close(rd) }()
 	ctx, cancel := context.WithCancel(context.Background())
 	defer cancel()
-	in := make(chan scan.Result, r.Intn(3))
+	in := make(chan scan.Result, capIn)
 	done := make(chan struct{})
 	go func() { lg.LogResults(ctx, in); close(done) }()
-	rw := row{T: "live", Gen: gen, Class: "arp-live-json", Nontrivial: n > pool}
+	rw := row{T: "live", Gen: gen, Class: class, Nontrivial: nontrivial}
 	for i, g := range gs {
 		select {
 		case in <- g.real:
@@ -1415,6 +1433,203 @@ func liveCase(r *hlib.SplitMix64, gen string) row {
 	return rw
 }
 
+// ---------------------------------------------------------------- big history: lossy de-duplication keys
+
+type ipSink struct {
+	ips  []string
+	done chan struct{}
+}
+
+func (s *ipSink) Error(error) {}
+func (s *ipSink) LogResults(ctx context.Context, results <-chan scan.Result) {
+	defer close(s.done)
+	for r := range results {
+		if a, ok := r.(*arp.ScanResult); ok {
+			s.ips = append(s.ips, a.IP)
+		} else {
+			s.ips = append(s.ips, "?")
+		}
+	}
+}
+
+func bigIP(i int) string { return fmt.Sprintf("10.%d.%d.%d", (i>>16)&255, (i>>8)&255, i&255) }
+
+// runUnique feeds the hosts produced by next (until it returns -1) through a fresh real unique
+// logger and returns the addresses passed on, in order (nil if it got stuck).
+func runUnique(next func() int) []string {
+	sink := &ipSink{done: make(chan struct{})}
+	ul := log.NewUniqueLogger(sink)
+	ctx, cancel := context.WithCancel(context.Background())
+	defer cancel()
+	in := make(chan scan.Result, 1024)
+	go ul.LogResults(ctx, in)
+	stuck := time.After(60 * time.Second)
+	for i := next(); i >= 0; i = next() {
+		select {
+		case in <- &arp.ScanResult{IP: bigIP(i), MAC: "02:00:00:00:00:01"}:
+		case <-stuck:
+			return nil
+		}
+	}
+	close(in)
+	select {
+	case <-sink.done:
+	case <-stuck:
+		return nil
+	}
+	return sink.ips
+}
+
+func listNext(l []int) func() int {
+	k := 0
+	return func() int {
+		if k >= len(l) {
+			return -1
+		}
+		k++
+		return l[k-1]
+	}
+}
+
+// bigCase: n distinct hosts 10.0.0.0 upwards (the addresses of a /13 for n = 2^19), every host seen three
+// times with other hosts in between, through the real unique logger; judged on the implementation alone:
+// every distinct host is passed on exactly once, in first-sighting order.  It does not depend on how the
+// logger remembers hosts, so any lossy key (digest, prefix, ...) that confuses two of these hosts shows.
+// When a host is lost, the earlier host it is confused with is isolated and a two-host history is returned too.
+func bigCase(n int, gen string) []row {
+	rw := row{T: "big", Gen: gen, Class: "big-history", Nontrivial: true}
+	// history: i, i-1, i-7 (as a live scan re-sees hosts of earlier passes)
+	i, phase := 0, 0
+	got := runUnique(func() int {
+		for i < n {
+			switch phase {
+			case 0:
+				phase = 1
+				return i
+			case 1:
+				phase = 2
+				if i >= 1 {
+					return i - 1
+				}
+			default:
+				phase = 0
+				i++
+				if i-1 >= 7 {
+					return i - 1 - 7
+				}
+			}
+		}
+		return -1
+	})
+	if got == nil {
+		rw.Spec = "the unique logger does not finish a history of many hosts"
+		return []row{rw}
+	}
+	count := make(map[string]int, n)
+	for _, ip := range got {
+		count[ip]++
+	}
+	missing, twice := -1, -1
+	nmiss, ntwice := 0, 0
+	for k := 0; k < n; k++ {
+		switch c := count[bigIP(k)]; {
+		case c == 0:
+			nmiss++
+			if missing < 0 {
+				missing = k
+			}
+		case c > 1:
+			ntwice++
+			if twice < 0 {
+				twice = k
+			}
+		}
+	}
+	order := -1
+	if nmiss == 0 && ntwice == 0 {
+		for k := 0; k < n; k++ {
+			if got[k] != bigIP(k) {
+				order = k
+				break
+			}
+		}
+	}
+	switch {
+	case twice >= 0:
+		rw.Spec = fmt.Sprintf("%d of %d distinct hosts are printed more than once, first %s (each host was seen three times)", ntwice, n, bigIP(twice))
+		return []row{rw, hostsCase(bigIP(twice)+","+bigIP(twice+1)+","+bigIP(twice), "hosts:"+bigIP(twice)+","+bigIP(twice+1)+","+bigIP(twice))}
+	case order >= 0:
+		rw.Spec = fmt.Sprintf("hosts are not printed in first-sighting order: position %d has %s, expected %s", order, got[order], bigIP(order))
+		return []row{rw}
+	case missing < 0:
+		return []row{rw}
+	}
+	h := missing
+	// which earlier host is h confused with?  Candidates: the hosts that get lost when the order is reversed.
+	partner := -1
+	drops := func(g int) bool {
+		out := runUnique(listNext([]int{g, h}))
+		return out != nil && len(out) == 1 && out[0] == bigIP(g)
+	}
+	k := n
+	rev := runUnique(func() int { k--; return k })
+	if rev != nil {
+		rc := make(map[string]bool, n)
+		for _, ip := range rev {
+			rc[ip] = true
+		}
+		tried := 0
+		for g := 0; g < h && tried < 4096; g++ {
+			if !rc[bigIP(g)] {
+				tried++
+				if drops(g) {
+					partner = g
+					break
+				}
+			}
+		}
+	}
+	if partner < 0 { // bisect: the shortest prefix of the hosts after which h is no longer printed
+		lo, hi := 0, h // invariant: prefix [0,lo) keeps h, prefix [0,hi) loses h
+		lost := func(m int) bool {
+			j := 0
+			out := runUnique(func() int {
+				if j < m {
+					j++
+					return j - 1
+				}
+				if j == m {
+					j++
+					return h
+				}
+				return -1
+			})
+			return out != nil && (len(out) == 0 || out[len(out)-1] != bigIP(h))
+		}
+		if lost(hi) {
+			for hi-lo > 1 {
+				mid := (lo + hi) / 2
+				if lost(mid) {
+					hi = mid
+				} else {
+					lo = mid
+				}
+			}
+			if drops(hi - 1) {
+				partner = hi - 1
+			}
+		}
+	}
+	rw.Spec = fmt.Sprintf("%d of %d distinct hosts are never printed, first %s", nmiss, n, bigIP(h))
+	if partner < 0 {
+		return []row{rw}
+	}
+	rw.Spec += fmt.Sprintf(": it is taken for the earlier host %s (the history %s, %s prints only the first)", bigIP(partner), bigIP(partner), bigIP(h))
+	list := bigIP(partner) + "," + bigIP(h) + "," + bigIP(partner) + "," + bigIP(h)
+	rw.ReplayGen = "hosts:" + list
+	return []row{rw, hostsCase(list, "hosts:"+list)}
+}
+
 // ---------------------------------------------------------------- driver
 
 func derive(seed int64, i int) int64 {
@@ -1433,6 +1648,10 @@ func genCase(gen string) row {
 		return n
 	}
 	switch parts[0] {
+	case "hosts": // hosts:<ip>,<ip>,...
+		return hostsCase(strings.TrimPrefix(gen, "hosts:"), gen)
+	case "big": // big:<n>
+		return bigCase(int(num(1)), gen)[0]
 	case "rec": // rec:<kind>:<long>:<seed>
 		r := hlib.NewRand(num(3))
 		return recCase(genResult(r, int(num(1)), num(2) == 1), gen)
@@ -1469,6 +1688,7 @@ func main() {
 	ndec := flag.Int("dec", 400, "number of JSON texts for the decoder tie")
 	nstr := flag.Int("str", 600, "number of raw strings")
 	pairs := flag.Bool("pairs", false, "all 65536 two-byte strings, both escapers")
+	big := flag.Int("big", 0, "number of distinct hosts of the big unique-logger history (0 = none)")
 	one := flag.String("replay", "", "replay one case from its generator string")
 	flag.Parse()
 	w := hlib.NewOut(*out)
@@ -1476,6 +1696,11 @@ func main() {
 	if *one != "" {
 		w.Put(genCase(*one))
 		return
+	}
+	if *big > 0 {
+		for _, rw := range bigCase(*big, fmt.Sprintf("big:%d", *big)) {
+			w.Put(rw)
+		}
 	}
 	// all 256 one-byte strings through both escapers (the finite sweep of the theorem's byte classes)
 	for std := 0; std < 2; std++ {
